@@ -10,6 +10,7 @@ pub mod c11;
 pub mod c12;
 pub mod c13;
 pub mod c16;
+pub mod c17;
 pub mod c20;
 
 use crate::engine::Prop;
@@ -29,6 +30,7 @@ pub fn lookup(id: &str) -> Option<Arc<dyn Prop>> {
         "C12" => Arc::new(c12::C12),
         "C13" => Arc::new(c13::C13),
         "C16" => Arc::new(c16::C16),
+        "C17" => Arc::new(c17::C17),
         "C20" => Arc::new(c20::C20),
         _ => return None,
     })
